@@ -39,16 +39,27 @@ package nsqd
 //@   onreturn lReadyFor := c
 //@   onreturn lReady := result
 
-// Wakes the pump; touches no counter.
+// Wakes the pump; touches no counter. pumpKicks / pumpKicked record the wake-up attempts (free ghosts: outside every
+// frame; the send itself is non-blocking - when the one-slot channel is full a wake-up is already pending).
+//@ ghost[free] pumpKicks int
+//@ ghost[free] pumpKicked *clientV2
+//@ ghostgroup pumpKicks, pumpKicked
 //@ func (c *clientV2) tryUpdateReadyState()
 //@   props C03 C13
 //@   requires c != nil
+//@   ensures[tried-this-connection] sent(c.ReadyStateChan) == old(sent(c.ReadyStateChan)) || sent(c.ReadyStateChan) == old(sent(c.ReadyStateChan)) + 1
 //@   modifies
+//@   onreturn pumpKicks := pumpKicks + 1
+//@   onreturn pumpKicked := c
 
 //@ func (c *clientV2) SetReadyCount(count int64)
 //@   props C03 C13
 //@   requires c != nil
 //@   ensures[ready-set] c.ReadyCount == count
+//   every CHANGE of the ready count - up or down, RDY 0 and CLS included - wakes the delivery pump so that it re-evaluates
+//   readiness (otherwise a consumer that lowered RDY still gets the next message)
+//@   ensures[pump-woken-on-every-change] old(c.ReadyCount) != count ==> pumpKicks == old(pumpKicks) + 1 && pumpKicked == c
+//@   ensures[no-wake-up-without-change] old(c.ReadyCount) == count ==> pumpKicks == old(pumpKicks)
 //@   modifies c.ReadyCount
 
 //@ func (c *clientV2) FinishedMessage()
@@ -58,6 +69,7 @@ package nsqd
 //@   ensures[in-flight] c.InFlightCount == wrapI64(old(c.InFlightCount) - 1)
 //@   ensures[finish-count-nowrap] old(c.FinishCount) < 18446744073709551615 ==> c.FinishCount == old(c.FinishCount) + 1
 //@   ensures[in-flight-nowrap] old(c.InFlightCount) > -9223372036854775808 ==> c.InFlightCount == old(c.InFlightCount) - 1
+//@   ensures[pump-woken] pumpKicks == old(pumpKicks) + 1 && pumpKicked == c
 //@   modifies c.FinishCount, c.InFlightCount
 
 //@ func (c *clientV2) RequeuedMessage()
@@ -67,6 +79,7 @@ package nsqd
 //@   ensures[in-flight] c.InFlightCount == wrapI64(old(c.InFlightCount) - 1)
 //@   ensures[requeue-count-nowrap] old(c.RequeueCount) < 18446744073709551615 ==> c.RequeueCount == old(c.RequeueCount) + 1
 //@   ensures[in-flight-nowrap] old(c.InFlightCount) > -9223372036854775808 ==> c.InFlightCount == old(c.InFlightCount) - 1
+//@   ensures[pump-woken] pumpKicks == old(pumpKicks) + 1 && pumpKicked == c
 //@   modifies c.RequeueCount, c.InFlightCount
 
 //@ func (c *clientV2) SendingMessage()
@@ -84,12 +97,14 @@ package nsqd
 //@   requires c != nil
 //@   ensures[in-flight] c.InFlightCount == wrapI64(old(c.InFlightCount) - 1)
 //@   ensures[in-flight-nowrap] old(c.InFlightCount) > -9223372036854775808 ==> c.InFlightCount == old(c.InFlightCount) - 1
+//@   ensures[pump-woken] pumpKicks == old(pumpKicks) + 1 && pumpKicked == c
 //@   modifies c.InFlightCount
 
 //@ func (c *clientV2) Empty()
 //@   props C03 C13
 //@   requires c != nil
 //@   ensures[in-flight-zero] c.InFlightCount == 0
+//@   ensures[pump-woken] pumpKicks == old(pumpKicks) + 1 && pumpKicked == c
 //@   modifies c.InFlightCount
 
 // CLS: RDY is forced to 0 and the connection is marked closing; a closing connection with RDY 0 is
@@ -105,11 +120,13 @@ package nsqd
 //@ func (c *clientV2) Pause()
 //@   props C03
 //@   requires c != nil
+//@   ensures[pump-woken] pumpKicks == old(pumpKicks) + 1 && pumpKicked == c
 //@   modifies
 
 //@ func (c *clientV2) UnPause()
 //@   props C03
 //@   requires c != nil
+//@   ensures[pump-woken] pumpKicks == old(pumpKicks) + 1 && pumpKicked == c
 //@   modifies
 
 // ---- IDENTIFY settings (C09): accepted iff in the documented range, else error and unchanged ----
